@@ -223,3 +223,75 @@ Print Assumptions C08_old_K1_witness.
 Print Assumptions C08_old_K4_deferral_witness.
 Print Assumptions C08_old_K4_prefix_witness.
 Print Assumptions C08_old_refinement_refuted.
+
+(* ---- M3 (Conn/Sem3.v): the same for EVERY behaviour of the transport (free room following any schedule: writes accepted
+   in part, refused, never accepted again), every latency of localize(), every cancellation of a pending write or of a
+   pending missed-keep-alive verdict by the race.  Proofs in Conn/Sem3Proofs.v. ---- *)
+From Passage Require Import Lib.Bytes Codec.Desc Gen.PacketsGen Conn.Types Conn.Prog Conn.Sem1 Conn.Sem2 Conn.Sem3 Conn.Monitor Conn.Order Conn.Checks Conn.Switch Conn.Sem3Proofs.
+Local Open Scope Z_scope.
+
+Theorem C08_M3_calm_is_M2 : forall o cfg e encf s,
+  trace_of (run3 o cfg e encf 0 None [] s) = run2 o cfg e s
+  /\ abandoned_of (run3 o cfg e encf 0 None [] s) = [].
+Proof. exact run3_calm. Qed.
+
+Theorem C08_M3_calm_wire : forall o cfg e encf s,
+  concat (map snd (wire_of (run3 o cfg e encf 0 None [] s)))
+  = concat (map (fun ev => match snd ev with TSend pk vs => frame_bytes encf pk vs | _ => [] end)
+                (trace_of (run3 o cfg e encf 0 None [] s))).
+Proof. exact run3_calm_wire. Qed.
+
+Theorem C08_M3_frames_intact : forall o cfg e encf loclat cap sch s,
+  exists rest,
+    concat (map (fun ev => match snd ev with TSend pk vs => frame_bytes encf pk vs | _ => [] end)
+                (trace_of (run3 o cfg e encf loclat cap sch s)))
+    = concat (map snd (wire_of (run3 o cfg e encf loclat cap sch s))) ++ rest.
+Proof. exact run3_frames_intact. Qed.
+
+Theorem C08_M3_safe_sound : forall (S : Type) (step : S -> tev -> option S) cfg e encf loclat,
+  (forall st ev st', step st ev = Some st' -> (forall o, ev <> TEnd o) -> step st' (TEnd (OErr KAdapter)) <> None) ->
+  forall p st s, safe step st p -> ok step st (untime (trace_of (exec3 cfg e encf loclat p s))).
+Proof. exact safe_sound3. Qed.
+
+Theorem C08_M3_adapter_end_step_with : forall chk : mst -> tev -> bool,
+  (forall st, chk st (TEnd (OErr KAdapter)) = true) ->
+  forall st ev st', step_with chk st ev = Some st' -> (forall o, ev <> TEnd o) ->
+    step_with chk st' (TEnd (OErr KAdapter)) <> None.
+Proof. exact step_with_adapter_end. Qed.
+
+Theorem C08_M3_flush_cut_example :
+  (let '(o, s', r) := flush (Some 7) ex_flush in (o, c_unsent s', now3 s', r))
+  = ([OW 0 [1; 2; 3]], [4; 5; 6; 7; 8; 9; 10], 7, FlCut).
+Proof. exact flush_cut_example. Qed.
+
+Theorem C08_M3_flush_done_example :
+  (let '(o, s', r) := flush None ex_flush in (o, c_unsent s', now3 s', r))
+  = ([OW 0 [1; 2; 3]; OW 9 [4; 5; 6; 7; 8; 9; 10]], [], 9, FlDone).
+Proof. exact flush_done_example. Qed.
+
+Theorem C08_M3_race_verdict_adapter_failed :
+  let out := exec3 ex_cfg (ex_env RErr) ex_encf 5 ex_race ex_s3 in
+  trace_of out = [(0, TCall CDiscover); (0, TTick); (3, TEnd (OErr KAdapter))]
+  /\ abandoned_of out = [(0, CLocalize None key_timeout)]
+  /\ wire_of out = [].
+Proof. exact race_verdict_adapter_failed. Qed.
+
+Theorem C08_M3_race_verdict_resumed :
+  let out := exec3 ex_cfg (ex_env (RTargets [])) ex_encf 5 ex_race ex_s3 in
+  untime (trace_of out)
+    = [TCall CDiscover; TTick; TCall (CLocalize None key_timeout); TRes (CLocalize None key_timeout) (RText [65]);
+       TSend configuration_cb_DisconnectPacket [VB [65]]; TEnd (OErr KMissedKA)]
+  /\ map fst (trace_of out) = [0; 0; 3; 8; 8; 8]
+  /\ calls_of out = [(0, CDiscover); (0, CLocalize None key_timeout); (3, CLocalize None key_timeout)]
+  /\ map fst (wire_of out) = [8].
+Proof. exact race_verdict_resumed. Qed.
+
+Print Assumptions C08_M3_calm_is_M2.
+Print Assumptions C08_M3_calm_wire.
+Print Assumptions C08_M3_frames_intact.
+Print Assumptions C08_M3_safe_sound.
+Print Assumptions C08_M3_adapter_end_step_with.
+Print Assumptions C08_M3_flush_cut_example.
+Print Assumptions C08_M3_flush_done_example.
+Print Assumptions C08_M3_race_verdict_adapter_failed.
+Print Assumptions C08_M3_race_verdict_resumed.
